@@ -192,3 +192,36 @@ pub fn c04_name_eq_implies_hash_eq_fixed_layout_bounded() {
         assert!(!h1.overflow && h1.len > 0);
     }
 }
+
+/// Names: `composed_cmp` is the octet order of the wire forms and `lowercase_composed_cmp` the octet order of the
+/// canonical (lower-cased) wire forms, on the compiled code -- the counterpart of unit nameorder's contracts,
+/// independent of how the comparison is written (fast paths, iterator adapters).
+/// Bounded: two flat names with the fixed label layout 1+2 content octets and the root label; all content octets.
+#[kani::proof]
+#[kani::unwind(12)]
+pub fn c04_name_composed_cmp_fixed_layout_bounded() {
+    use domain::base::name::ToName;
+    let a: [u8; 3] = kani::any();
+    let b: [u8; 3] = kani::any();
+    let xa = [1u8, a[0], 2, a[1], a[2], 0];
+    let xb = [1u8, b[0], 2, b[1], b[2], 0];
+    let x = Name::from_octets(xa).unwrap();
+    let y = Name::from_octets(xb).unwrap();
+    // same layout: the wire forms differ only in the content octets, in this order
+    let mut plain = Ordering::Equal;
+    let mut lowered = Ordering::Equal;
+    let mut i = 0;
+    while i < 3 {
+        if plain == Ordering::Equal {
+            plain = a[i].cmp(&b[i]);
+        }
+        if lowered == Ordering::Equal {
+            lowered = lower(a[i]).cmp(&lower(b[i]));
+        }
+        i += 1;
+    }
+    kani::cover!(plain != lowered);
+    kani::cover!(lowered == Ordering::Equal && plain != Ordering::Equal);
+    assert!(x.composed_cmp(&y) == plain);
+    assert!(x.lowercase_composed_cmp(&y) == lowered);
+}
